@@ -80,6 +80,8 @@ def _decided_at(cfg, node):
     if cache is None:
         cache = cfg._decided_cache = {}
         for nm, ts in cfg.flags.items():
+            if nm in cfg.flag_in_loop:
+                continue            # (a node may be reached from an earlier iteration: nothing is inferred, the walk itself keeps the tests consistent)
             tset = set(ts)
             cache[nm] = (_plain_reach(cfg, lambda e: e.src in tset and e.kind == 'T'), _plain_reach(cfg, lambda e: e.src in tset and e.kind == 'F'))
     out = set()
@@ -98,6 +100,7 @@ def _search_flags(cfg, starts, *, stop, avoid_node, avoid_edge, exc, weak, edge_
     seen = set()
     parent = {}
     q = deque()
+    binders = {cfg.flag_bind[nm]: nm for nm in cfg.flag_in_loop if nm in cfg.flags and nm in cfg.flag_bind}
     for s in starts:
         st = (s, _decided_at(cfg, s))
         if st not in seen_states:
@@ -125,6 +128,9 @@ def _search_flags(cfg, starts, *, stop, avoid_node, avoid_edge, exc, weak, edge_
             d = e.dst
             if avoid_node is not None and avoid_node(d):
                 continue
+            if binders and d in binders:
+                # the flag is bound anew (a loop iteration): what was decided about it is void
+                dec2 = frozenset(x for x in dec2 if x[0] != binders[d])
             st = (d, dec2)
             if st in seen_states:
                 continue
